@@ -6,7 +6,7 @@ from fractions import Fraction
 
 from .. import absval, bits as B, codec
 from ..model import AnalysisError, StructVal, dotted, norm_text, unparse, walk_no_nested
-from ..q import NONEXC, Fn
+from ..q import cmp_oriented, NONEXC, Fn
 from ..spec import tables as T
 
 LEVEL = "other"
@@ -333,7 +333,14 @@ def r6(ctx):
     need = [f"zone_number = {buf}[offset]", f"name_length = {buf}[offset + 1]", "name_start = offset + 2", "name_end = name_start + name_length", f"zone_name = {buf}[name_start:name_end].decode(encoding=encoding.STRING_ENCODING)", "zone_names[zone_number] = zone_name", "offset = name_end"]
     ok = lp is not None and norm_text(lp.test) == f"offset < {hdr}.message_length" and all(x in body for x in need)
     ctx.check(ok, R, "at5:ZoneNamesDecoder:records", zm, f.node, "per zone: number, length byte, that many name bytes; next record right after", "; ".join(body)[:240])
-    ok = any(isinstance(s, ast.If) and norm_text(s.test) == f"name_end > {hdr}.message_length" and any(isinstance(x, ast.Raise) for x in s.body) for s in (lp.body if lp else []))
+    # the upper bound of the slice that is decoded as the name must be compared against the announced length (either operand order)
+    uppers = {norm_text(x.slice.upper) for x in ast.walk(lp) if isinstance(x, ast.Subscript) and isinstance(x.slice, ast.Slice) and x.slice.upper is not None and dotted(x.value) == buf} if lp else set()
+    ok = False
+    for s_ in (lp.body if lp else []):
+        if isinstance(s_, ast.If) and any(isinstance(x, ast.Raise) for x in s_.body):
+            o = cmp_oriented(s_.test, lambda e: norm_text(e) == f"{hdr}.message_length")
+            if o is not None and o[1] == "<" and norm_text(o[2]) in uppers:
+                ok = True
     ctx.check(ok, R, "at5:ZoneNamesDecoder:bounded", zm, f.node, "a name running past the announced length raises DecodeError", "no bound check")
     # ability names
     for gen in ("at4", "at5"):
